@@ -174,6 +174,7 @@ def all_sites(arch, systematic, rng):
 def cases(seed, tier):
     archs = sorted(a for a in ARCH if a != 'tarpit')
     idx = 0
+    yield from listen_cases(seed, tier)
     # peers that pace what they send so that no single read times out: a finite greeting of 25 lines, one per 0.8 x timeout (then the
     # banner, or silence), and a KEXINIT delivered 64 bytes at a time at the same pace; the time such a peer can hold the tool is part of
     # the bound ("proportional to the configured timeout times the number of connections"), so pacing is not added to the allowance
@@ -416,7 +417,67 @@ def judge(case, rec, out):
                             'faults=%r\nstdout:\n%s' % (case['faults'], rec['stdout'][-1500:])))
 
 
+def listen_cases(seed, tier):
+    """The accept side of a client audit (-c): the tool listens on both families and waits for one connection.  Faults of that phase
+    belong to nobody's byte stream: the client never comes, comes late, the port cannot be bound for one family or for both."""
+    n = 0
+    for T in (1, 2, 3):
+        for fam in (4, 6):
+            # nobody connects: with an explicit time-out the tool gives up after it (status 1, no report)
+            yield {'arch': 'client', 'listen': {'kind': 'absent'}, 'family': fam, 'faults': [], 'opts': ['-n'], 'timeout': T, 'net': {'rtt_us': 200, 'seg': {'mode': 'msg'}}, 'pseed': 1}
+            # the client comes shortly before the time-out elapses: audited as usual
+            yield {'arch': 'client', 'listen': {'kind': 'late', 'at_us': int(0.6 * T * 1_000_000)}, 'family': fam, 'faults': [], 'opts': ['-n'], 'timeout': T,
+                   'net': {'rtt_us': 200, 'seg': {'mode': 'msg'}}, 'pseed': 1}
+            for bf in (['0.0.0.0'], ['::'], ['0.0.0.0', '::']):
+                yield {'arch': 'client', 'listen': {'kind': 'bind_fail', 'hosts': bf}, 'family': fam, 'faults': [], 'opts': ['-n'], 'timeout': T,
+                       'net': {'rtt_us': 200, 'seg': {'mode': 'msg'}}, 'pseed': 1}
+            n += 1
+
+
+def run_listen(case, ctx):
+    out = []
+    L = case['listen']
+    T = case['timeout']
+    plan = base_plan('client', case['opts'], T, case['net'], None, case.get('pseed', 1))
+    cl = plan['world']['clients'][0]
+    if case['family'] == 6:
+        cl['to'], cl['from'] = ['::', 2222], ['2001:db8::7', 50022]
+    if L['kind'] == 'absent':
+        cl['at_us'] = 10 ** 12
+    elif L['kind'] == 'late':
+        cl['at_us'] = L['at_us']
+    elif L['kind'] == 'bind_fail':
+        plan['world']['bind_fail'] = L['hosts']
+        cl['retries'] = 3
+    plan['knobs'] = dict(plan.get('knobs') or {}, max_vtime_s=600, max_events=400000)
+    rec = ctx.run(plan, hang_is_outcome=True)
+    if rec.get('harness_error'):
+        return {'violations': [], 'keys': []}
+    tr = report.TextReport(rec['stdout'], verbose=False)
+    what = '%s%s, client over IPv%d' % (L['kind'], (' ' + '+'.join(L['hosts'])) if L.get('hosts') else '', case['family'])
+    served = L['kind'] == 'late' or (L['kind'] == 'bind_fail' and ('0.0.0.0' if case['family'] == 4 else '::') not in L['hosts'])
+    if rec['outcome'] != 'exit':
+        out.append(viol('C09 client audit (%s): did not terminate (%s)' % (what.split(',')[0], rec['outcome']), 'timeout=%s\n%s' % (T, rec['stdout'][-600:])))
+    elif rec['status'] not in (0, 1, 2, 3):
+        out.append(viol('C09 client audit (%s): status %s' % (what.split(',')[0], rec['status']), '%s\n%s\n%s' % (what, rec['stdout'][-800:], rec['stderr'][-400:])))
+    elif served:
+        # a client did reach a listening socket and sent a well-formed handshake: complete report
+        if rec['status'] not in (0, 2, 3) or not tr.names('kex'):
+            out.append(viol('C09 client audit (%s): a client that connected with a well-formed handshake got no report (status %s)' % (what.split(',')[0], rec['status']),
+                            '%s\n%s\n%s' % (what, rec['stdout'][-800:], rec['stderr'][-400:])))
+    else:
+        if rec['status'] != 1 or tr.has_alg_report():
+            out.append(viol('C09 client audit (%s): no client was served, yet status %s / report shown' % (what.split(',')[0], rec['status']), '%s\n%s' % (what, rec['stdout'][-600:])))
+        # while at least one family listens the tool waits for the time-out; with no listener at all it has nothing to wait for
+        bound = 1_000_000 if (L['kind'] == 'bind_fail' and len(L['hosts']) == 2) else (T + 2) * 1_000_000
+        if rec['vtime_us'] > bound + 1_000_000:
+            out.append(viol('C09 client audit (%s): gave up later than the time-out allows' % what.split(',')[0], 'vtime=%.1fs timeout=%ss' % (rec['vtime_us'] / 1e6, T)))
+    return {'violations': out, 'keys': [h('listen', L['kind'], tuple(L.get('hosts', [])), case['family'], T)], 'counters': {'listen_' + L['kind']: 1, 'status_%s' % rec['status']: 1}}
+
+
 def run_case(case, ctx):
+    if case.get('listen'):
+        return run_listen(case, ctx)
     out = []
     faults = copy.deepcopy(case['faults'])
     for f in faults:
